@@ -300,6 +300,9 @@ func (b *genericBackend) Walk() Res {
 		if te, ok := e.(*cache.TraitEntryOf[int]); ok {
 			w.E = te.E
 			w.C = te.C
+		} else if te, ok := e.(cache.TraitEntryOf[int]); ok {
+			w.E = te.E
+			w.C = te.C
 		}
 
 		if w.E != e.ExpireAt().UnixNano() && !(w.E == 0 && e.ExpireAt().Unix() == 0) {
